@@ -116,7 +116,11 @@ def check_case(case, dtype_name, rec):
         "float32": jnp.float32}[dtype_name]
   use_diag = diag and dtype_name in ("int8", "int16")
   wit = dict(case, dtype=dtype_name)
-  q = Q.from_float_value(jnp.asarray(x), dt, use_diag)
+  # bfloat16 / float32 storage with extract_diagonal requested: nothing is extracted there today (the flag is carried only), so
+  # the exact-diagonal clause is not asserted, but the round-trip bounds must hold with the flag on as well
+  q = Q.from_float_value(jnp.asarray(x), dt, diag)
+  if diag and not use_diag:
+    rec.count("float_storage_with_extract_diagonal")
   d = np.asarray(q.to_float())
   x64 = x.astype(np.float64)
   d64 = d.astype(np.float64)
@@ -143,7 +147,7 @@ def check_case(case, dtype_name, rec):
     rec.maxi("bf16_err_over_bound", float(np.max(np.where(normal, err / np.maximum(bound, 1e-300), 0))) if x.size else 0)
     if np.any(bad):
       rec.violation("bf16-roundtrip", "bfloat16 round trip off by more than 2^-8 relative", wit)
-    q2 = Q.from_float_value(jnp.asarray(d), dt, False)
+    q2 = Q.from_float_value(jnp.asarray(d), dt, diag)
     rec.count("requant_checked")
     if not np.array_equal(np.asarray(q2.quantized).astype(np.float32), np.asarray(q.quantized).astype(np.float32)):
       rec.violation("bf16-requant", "re-quantizing a dequantized bfloat16 value changed it", wit)
@@ -254,6 +258,9 @@ def check_insitu(c, rec):
     prev = {}
     for t in range(c["T"]):
       g = {k: np.asarray(rng.standard_normal(tuple(s)) * 10 ** rng.uniform(-1, 1), np.float32) for k, s in tree.items()}
+      if c.get("spike") is not None and t == c["spike"]:
+        g["a"] = (g["a"] * np.float32(1e25)).astype(np.float32)
+        rec.count("insitu_overflow_spikes")
       events.clear()
       run.step(g)
       jax.effects_barrier()
@@ -297,12 +304,14 @@ def _insitu_fields(c, st, tree, t, rec):
         qi = np.asarray(q.quantized)
         nb = 127 if dt == jnp.dtype(jnp.int8) else 32767
         wit = dict(c, leaf=k, field=name, step=t)
+        val = np.asarray(q.to_float(), np.float64)
+        if not np.all(np.isfinite(val)):
+          # the property speaks about finite tensors: an overflowed statistic (inf / inf buckets) is out of scope
+          rec.count("insitu_nonfinite_values_skipped")
+          continue
         if qi.size and int(np.abs(qi.astype(np.int64)).max()) > nb:
           rec.violation("insitu-integer-range", "%s of %s at step %d holds an integer outside [-%d,%d]" % (name, k, t, nb, nb), wit)
           return False
-        val = np.asarray(q.to_float(), np.float64)
-        if not np.all(np.isfinite(val)):
-          continue
         if q.extract_diagonal and not np.array_equal(np.diag(val).astype(np.float32), np.asarray(q.diagonal)):
           rec.violation("insitu-diagonal", "%s of %s at step %d: stored diagonal is not the diagonal of the value it denotes" % (name, k, t), wit)
           return False
@@ -319,8 +328,12 @@ def _insitu_fields(c, st, tree, t, rec):
 
 def gen_insitu(rng):
   trees = [{"a": [4, 3], "b": [5]}, {"a": [6, 6]}, {"a": [3, 4, 2], "b": [7, 2]}]
-  return {"fn": "insitu", "tree": trees[int(rng.integers(0, len(trees)))], "graft": int(rng.choice([1, 3])), "interval": int(rng.choice([1, 2])),
-          "sched": bool(rng.integers(0, 2)), "T": 6, "hseed": int(rng.integers(0, 2 ** 31))}
+  c = {"fn": "insitu", "tree": trees[int(rng.integers(0, len(trees)))], "graft": int(rng.choice([1, 3])), "interval": int(rng.choice([1, 2])),
+       "sched": bool(rng.integers(0, 2)), "T": 6, "hseed": int(rng.integers(0, 2 ** 31))}
+  # a finite gradient spike that overflows the float32 statistics of leaf "a" from that step on: its roots are non-finite and
+  # rejected, so the carried (integers, diagonal, bucket sizes) must stay bit-identical ("carried but not updated does not drift")
+  c["spike"] = int(rng.integers(2, 5)) if rng.random() < 0.5 else None
+  return c
 
 
 def run(spec, rec):
@@ -345,6 +358,6 @@ def run(spec, rec):
 def replay(witness, rec):
   w = util.dec(witness)
   if w.get("fn") == "insitu":
-    check_insitu({k: w[k] for k in ("fn", "tree", "graft", "interval", "sched", "T", "hseed")}, rec)
+    check_insitu({k: w.get(k) for k in ("fn", "tree", "graft", "interval", "sched", "T", "hseed", "spike")}, rec)
     return
   check_case(w, w["dtype"], rec)
